@@ -136,6 +136,33 @@ func writesUEIds(fn *ssa.Function, memo map[*ssa.Function]int, depth int) bool {
 	return res
 }
 
+// reachesWrapper: f (a function of tglib that is not itself a boundary) calls, directly or through
+// other such functions, one of the build-and-encode wrappers or the NAS protection entry.
+func reachesWrapper(f *ssa.Function, memo map[*ssa.Function]int, depth int) bool {
+	if f == nil || len(f.Blocks) == 0 || depth > 4 {
+		return false
+	}
+	switch memo[f] {
+	case 1:
+		return true
+	case 2:
+		return false
+	}
+	memo[f] = 2
+	for _, ci := range core.Calls(f) {
+		name := core.CalleeName(ci.Common())
+		if k, _ := xKind(name); k == "wrap" || k == "enc" {
+			memo[f] = 1
+			return true
+		}
+		if g := ci.Common().StaticCallee(); g != nil && fnPkgPath(g) == pTglib && reachesWrapper(g, memo, depth+1) {
+			memo[f] = 1
+			return true
+		}
+	}
+	return false
+}
+
 func namedRet(name string, t types.Type, errs bool) core.AVal {
 	mk := func(t types.Type) core.AVal {
 		switch t.Underlying().(type) {
@@ -192,6 +219,14 @@ func driverModelXE(c *core.Ctx, fn *ssa.Function, errs bool) *xModel {
 	ex.Enter = func(f *ssa.Function) bool {
 		if f.Pkg == nil {
 			return core.RepoFunc(f)
+		}
+		if f.Pkg.Pkg.Path() == pTglib {
+			// a convenience layer of tglib over the build-and-encode wrappers (ue.UplinkNASTransport(nas)
+			// = GetUplinkNASTransport(ue.AmfUeNgapId, ue.RanUeNgapId, nas)) is seen through
+			if k, _ := xKind(core.FuncName(f)); k != "" {
+				return false
+			}
+			return reachesWrapper(f, map[*ssa.Function]int{}, 0)
 		}
 		return f.Pkg.Pkg.Path() == pStg && !xLeaf[f.Name()]
 	}
